@@ -325,6 +325,38 @@ func clipVertexSpecs(thorough bool) []composeSpec {
 				return args, ctx
 			}})
 		}
+		// repeated vertices: the same point twice in a row (at the end, at the start)
+		for _, dup := range [][]int{{0, 0}, {0, 1, 1}, {0, 0, 1}} {
+			dup := dup
+			if len(dup) > maxN+1 {
+				continue
+			}
+			cases = append(cases, composeCase{fmt.Sprintf("%d vertices, repeated %v", len(dup), dup), func(it *Interp, s *State) ([]AV, interface{}) {
+				box, edges := symBox(it)
+				ln := it.buildGeom(s, pts(kind, len(dup))).(SliceV)
+				arr := s.heap[ln.Arr].(ArrV)
+				orig := append([]AV(nil), arr.Elems...)
+				for i, j := range dup {
+					arr.Elems[i] = orig[j]
+				}
+				s.heap[ln.Arr] = arr
+				ctx := &clipVertexCtx{edges: edges, isRing: kind == "Ring"}
+				for _, e := range membersOf(s, ln) {
+					ctx.ids = append(ctx.ids, identString(e))
+					ctx.pts = append(ctx.pts, pointTerms(it, e))
+				}
+				args := []AV{box, ln}
+				switch open {
+				case 0:
+					args = append(args, boolOf(false))
+				case 1:
+					args = append(args, boolOf(true))
+				case 2:
+					args = append(args, SliceV{Nil: true})
+				}
+				return args, ctx
+			}})
+		}
 		specs = append(specs, composeSpec{entry: entry, tag: desc, terms: true, anyPath: true, skipTruncated: true, generalPosition: true, maxVisits: 6, maxIter: 6, termLimit: 4, cases: cases,
 			desc:  "every input vertex in the result is placed inside the box by the comparisons made on the path, every other result vertex lies on a line of the box, every input vertex the path places inside the box is in the result, and the travel order is kept",
 			judge: judge})
